@@ -2,6 +2,7 @@ import PwVerif.Model.Cache
 import PwVerif.Model.CacheTree
 import PwVerif.Model.CacheForest
 import PwVerif.Model.CacheFetchTree
+import PwVerif.Model.CacheCmp
 import PwVerif.Model.Proto
 open PwVerif.Cache PwVerif.Proto
 open PwVerif.CacheTree (T Src K KidK KCfg Sem St)
@@ -30,10 +31,15 @@ structure DSt where
   prop : St String
   forest : Root String
   fetch : PwVerif.CacheFetchTree.St String
+  vsame : List ((Nat × Nat) × (Bool × Bool))   -- (current value, remembered value) ↦ (`==` truthy, … and same type/shape)
+  vdesc : List (Nat × Nat)                       -- value ↦ what the function returns
+  vc : PwVerif.CacheCmp.St Nat Nat               -- hit test of /repo: `==`
+  vp : PwVerif.CacheCmp.St Nat Nat               -- proposed: type, shape, `==`
 
 def St0 : St String := { vals := [], kids := [], outs := [], cache := none }
 def DSt.init : DSt :=
-  { beh := [], rc := N.init, ru := N.init, sc := N.init, su := N.init, nc := N.init, nu := N.init, hc := N.init, hu := N.init, cur := St0, prop := St0, forest := { kids := [], cache := none }, fetch := { body := [], cache := none } }
+  { beh := [], rc := N.init, ru := N.init, sc := N.init, su := N.init, nc := N.init, nu := N.init, hc := N.init, hu := N.init, cur := St0, prop := St0, forest := { kids := [], cache := none }, fetch := { body := [], cache := none }, vsame := [], vdesc := [],
+    vc := PwVerif.CacheCmp.St.init, vp := PwVerif.CacheCmp.St.init }
 
 def showR : R → String
   | .ret none => "ret:ND"
@@ -88,6 +94,7 @@ def parseSrc (w : String) : Option Src :=
   | "v", some n => some (.val n)
   | "c", some n => some (.conn n)
   | "l", some n => some (.link n)
+  | "m", _ => ((rest.splitOn ".").mapM String.toNat?).map Src.multi     -- m3.0 = connections to 3 and 0, 3 first
   | _, _ => none
 
 def parsePath (w : String) : Option (List Nat) :=
@@ -97,6 +104,7 @@ def showSrc : Src → String
   | .val v => s!"v{v}"
   | .conn s => s!"c{s}"
   | .link i => s!"l{i}"
+  | .multi sibs => "m" ++ ".".intercalate (sibs.map toString)
 
 partial def showK : K → String
   | .mk kids subs =>
@@ -294,6 +302,33 @@ def step' (s : DSt) (ws : List String) : DSt × List String :=
         (PwVerif.CacheFetchTree.setAt i PwVerif.CacheFetchTree.cutIn))), [])
     | _, _, _ => (s, ["bad-op"])
   | ["ftrun"] => ftRun s
+  | ["vsame", a, b, c, p] =>
+    match a.toNat?, b.toNat?, c.toNat?, p.toNat? with
+    | some a, some b, some c, some p => ({ s with vsame := ((a, b), (c != 0, p != 0)) :: s.vsame }, [])
+    | _, _, _, _ => (s, ["bad-op"])
+  | ["vdesc", a, d] =>
+    match a.toNat?, d.toNat? with
+    | some a, some d => ({ s with vdesc := (a, d) :: s.vdesc }, [])
+    | _, _ => (s, ["bad-op"])
+  | ["vset", a] =>
+    match a.toNat? with
+    | some a =>
+      ({ s with vc := (PwVerif.CacheCmp.step (fun _ _ => false) id true s.vc (.set a)).1,
+                vp := (PwVerif.CacheCmp.step (fun _ _ => false) id true s.vp (.set a)).1 }, [])
+    | none => (s, ["bad-op"])
+  | ["vrun"] =>
+    let F := fun v => (s.vdesc.lookup v).getD 0
+    let sameC := fun v c => ((s.vsame.lookup (v, c)).map (·.1)).getD false
+    let sameP := fun v c => ((s.vsame.lookup (v, c)).map (·.2)).getD false
+    let one := fun (same : Nat → Nat → Bool) (st : PwVerif.CacheCmp.St Nat Nat) (tag : String) =>
+      let hit := match st.inp, st.cached with | some v, some c => same v c | _, _ => false
+      let r := PwVerif.CacheCmp.step same F true st .run
+      let u := PwVerif.CacheCmp.step same F false st .run
+      let sh := fun (x : Option (Option Nat)) => match x with | some (some d) => toString d | _ => "ND"
+      (r.1, s!"{tag} hit={hit} c={sh r.2} u={sh u.2}")
+    let (vc, l1) := one sameC s.vc "VC"
+    let (vp, l2) := one sameP s.vp "VP"
+    ({ s with vc, vp }, [l1, l2])
   | _ => (s, ["bad-op"])
 
 def main : IO Unit := PwVerif.Proto.run DSt.init step'
